@@ -3,6 +3,7 @@ import OdlModel.Model.CRat
 import OdlModel.Model.Lincomb
 import OdlModel.Gen.LincombTree
 import OdlModel.Model.ElemOps
+import OdlModel.Gen.Broadcast
 open OdlModel OdlModel.Lincomb OdlModel.ElemOps
 
 /-- Descriptor field `lay=<6 bits>`: c/f contiguity of x1.data, x2.data, out.data;
@@ -203,6 +204,28 @@ def doFront (l : Line) : Option String := do
     | .errOut => "err:out" | .errA => "err:a" | .errX1 => "err:x1" | .errX2NoB => "err:x2nob"
     | .errB => "err:b" | .errX2 => "err:x2" | .callOne => "call:one" | .callTwo => "call:two")
 
+/-- `bcast op=<iaddE|isubE|imulE|idivE> own=<index of the part that is `other`, or -1> n=LEN
+parts=p0|p1|… other=…` : in-place power-space broadcasting `x op= other` with the copy guard as
+extracted (`Gen.Broadcast.copyGuard`). Answers the parts and the operand afterwards. -/
+def doBcast (l : Line) : Option String := do
+  let op ← l.get? "op" >>= parseOp
+  let own ← l.int? "own"
+  let n ← l.nat? "n"
+  let raw ← l.get? "parts"
+  let parts ← (raw.splitOn "|").mapM parseCList
+  let other := (l.crats? "other").getD []
+  let k := parts.length
+  let junk : List CRat := List.replicate n ⟨77, 0⟩
+  let m := memOf (parts ++ [other, junk, junk])
+  let o : Nat := if own < 0 then k else own.toNat
+  if op == .idivE && ((List.range n).any fun i => m o i = 0) then some "undef:div0entry" else
+  let lc := tensorLC n false
+  match bcastInPlace lc (opStep lc op (k + 2)) OdlModel.Gen.Broadcast.copyGuard (List.range k) o (k + 1) m with
+  | none => some "raises"
+  | some m' =>
+    let dump (b : Nat) := showCList ((List.range n).map (m' b))
+    some ("ok parts=" ++ "|".intercalate ((List.range k).map dump) ++ s!" other={dump o}")
+
 def handle (l : Line) : Option String :=
   match l.op with
   | "lincomb" => doLincomb l
@@ -211,6 +234,7 @@ def handle (l : Line) : Option String :=
   | "ipow" => doIpow l
   | "plincomb" => doPLincomb l
   | "front" => doFront l
+  | "bcast" => doBcast l
   | "leaves" => doLeaves l
   | _ => none
 
